@@ -486,12 +486,45 @@ def kf_adoc_not_adjacent(w: Dict[str, Any]) -> bool:
     return True
 
 
+KNOWN = [("attribute-docstring-not-adjacent", kf_adoc_not_adjacent), ("assignment-after-definition-ignored", kf_assign_after_def),
+         ("property-setter-documented-as-extra-member", kf_setter_member), ("del-statement-not-seen", kf_del_ignored),
+         ("else-except-finally-blocks-not-walked", kf_else_branches)]
+
+
+def explain(w: Dict[str, Any]) -> Optional[List[str]]:
+    """One program can show several of the open findings at once (a `del` next to an assignment after a definition ...).  The
+    differences are partitioned: for each finding in turn, the largest set of the differences not explained yet that the
+    finding's own predicate accepts ON ITS OWN.  Returns the findings used, or None when some difference stays unexplained
+    (then the witness is a violation, whatever else it contains)."""
+    import itertools
+    if not w.get("diff") or not w.get("program"):
+        return None
+    remaining = list(range(len(w["diff"])))
+    used: List[str] = []
+    for fid, fn in KNOWN:
+        if not remaining:
+            break
+        found = None
+        for size in range(len(remaining), 0, -1):
+            for sub in itertools.combinations(remaining, size):
+                try:
+                    ok = fn({**w, "diff": [w["diff"][i] for i in sub]})
+                except Exception:
+                    ok = False
+                if ok:
+                    found = sub
+                    break
+            if found:
+                break
+        if found:
+            used.append(fid)
+            remaining = [i for i in remaining if i not in found]
+    return used if not remaining else None
+
+
 def run(ctx: Ctx) -> int:
-    ctx.register_matcher("attribute-docstring-not-adjacent", kf_adoc_not_adjacent)
-    ctx.register_matcher("assignment-after-definition-ignored", kf_assign_after_def)
-    ctx.register_matcher("property-setter-documented-as-extra-member", kf_setter_member)
-    ctx.register_matcher("del-statement-not-seen", kf_del_ignored)
-    ctx.register_matcher("else-except-finally-blocks-not-walked", kf_else_branches)
+    for fid, _fn in KNOWN:
+        ctx.register_matcher(fid, lambda w, fid=fid: (explain(w) or [None])[0] == fid)
     maxn = 2 if ctx.quick else 3
     names = ["a", "b"]
     r = ctx.tlc("Builder", CFG.format(maxn=maxn, names=tla(set(names)), kinds=tla(set(KINDS))), workers="auto", check=True,
